@@ -32,6 +32,12 @@ var vpRemotes = []vpRemote{
 	{"203.0.113.7", "203.0.113.7", []byte{0, 0, 0, 0, 0, 0, 0, 0, 0, 0, 0xff, 0xff, 203, 0, 113, 7}, false},
 	{"2001:db8::7", "2001:db8::7", []byte{0x20, 0x01, 0x0d, 0xb8, 0, 0, 0, 0, 0, 0, 0, 0, 0, 0, 0, 7}, false},
 	{"", "", nil, false},
+	// IPv6 addresses that merely end in 127.x.y.z (NAT64, documentation prefix, IPv4-compatible) are not loopback
+	{"[64:ff9b::7f00:1]:999", "64:ff9b::7f00:1", []byte{0, 0x64, 0xff, 0x9b, 0, 0, 0, 0, 0, 0, 0, 0, 0x7f, 0, 0, 1}, false},
+	{"[2001:db8::7f00:1]:999", "2001:db8::7f00:1", []byte{0x20, 0x01, 0x0d, 0xb8, 0, 0, 0, 0, 0, 0, 0, 0, 0x7f, 0, 0, 1}, false},
+	{"[::127.0.0.1]:999", "::127.0.0.1", []byte{0, 0, 0, 0, 0, 0, 0, 0, 0, 0, 0, 0, 0x7f, 0, 0, 1}, false},
+	// and the IPv4-mapped spelling of a loopback address is
+	{"[::ffff:127.0.0.1]:999", "::ffff:127.0.0.1", []byte{0, 0, 0, 0, 0, 0, 0, 0, 0, 0, 0xff, 0xff, 0x7f, 0, 0, 1}, true},
 }
 
 type vpMap struct{ prog, vers, prot, port uint32 }
